@@ -167,6 +167,53 @@ def comparable (bs : List Binding) : List (String × DescKind × Option Nat) :=
 def comparableKindsCounts (bs : List Binding) : List (DescKind × Option Nat) :=
   (bs.filter fun b => !b.ss && !isAddressKind b.kind).map fun b => (b.kind, b.count)
 
+/-! ## HLSL text of extern global / cbuffer declarations
+
+`generate_global_variable` and `generate_constant_buffer` (hlsl/src/ast_generate.rs) read the target only
+through two module flags; `generate_type` reads `requires_buffer_address` for the two address kinds.
+Slots and type spellings are parameters: the statement is about *where* the flags can show. -/
+
+structure Flags where
+  requiresVkBinding : Bool
+  requiresBufferAddress : Bool
+  deriving DecidableEq, Repr
+
+/-- `assign_api_bindings`: `requires_buffer_address = support_buffer_address`,
+    `requires_vk_binding = !require_slot_type || support_buffer_address` (`Gen.flagsDerivedAsModelled`) -/
+def flagsOf (p : Params) : Flags :=
+  ⟨!p.requireSlotType || p.supportBufferAddress, p.supportBufferAddress⟩
+
+/-- one emitted declaration: `[[vk::binding(..)]]`-style attributes, type, name, array suffix,
+    `: register(..)` annotation -/
+structure DeclText (σ : Type) where
+  vkBinding : Option σ
+  typeName : String
+  name : String
+  arr : Arr
+  register : Option σ
+  deriving Repr
+
+instance {σ : Type} [DecidableEq σ] : DecidableEq (DeclText σ) := by
+  intro a b
+  cases a; cases b
+  simp only [DeclText.mk.injEq]
+  exact inferInstance
+
+/-- the declaration text of an extern global of object kind `k` / of a cbuffer (`k = none`) -/
+def declText {σ : Type} (f : Flags) (spell : ObjKind → String) (slot : σ) (name : String)
+    (k : Option ObjKind) (arr : Arr) : DeclText σ :=
+  { vkBinding := if f.requiresVkBinding then some slot else none
+    typeName := match k with
+      | none => "cbuffer"
+      | some k => if isBufferAddress k && f.requiresBufferAddress then "uint64_t" else spell k
+    name := name
+    arr := arr
+    register := if !f.requiresVkBinding then some slot else none }
+
+/-- erase binding annotations -/
+def DeclText.erase {σ : Type} (d : DeclText σ) : DeclText Unit :=
+  { vkBinding := none, typeName := d.typeName, name := d.name, arr := d.arr, register := none }
+
 /-! ## Stage reports -/
 
 structure StageDef where
